@@ -463,6 +463,40 @@ func c16(c *Ctx) {
 			}
 		}
 		c.R.Check(reaches, load.FuncName(f)+": pkgRef added", c.pos(gp[0].Pos()), "the package owner reference flows into the owner references that are written", "the package owner reference never reaches the written object")
+		if f == upd {
+			// … and the object it is added to is what every Update writes: that object itself, or
+			// one whose owner references are first taken over from it (desired.SetOwnerReferences(current.GetOwnerReferences()))
+			var holder ssa.Value
+			for _, sk := range sink {
+				if a := cfgx.CallArgs(sk); len(a) == 2 && flow.Default.Any(a[1], func(v ssa.Value) bool { return v == gp[0].Value() }) {
+					holder = flow.Root(underIface(a[0]))
+				}
+			}
+			for _, w := range calls(f, clientUpdate) {
+				a := cfgx.CallArgs(w)
+				if holder == nil || len(a) < 2 {
+					continue
+				}
+				written := flow.Root(underIface(a[1]))
+				okW := written == holder
+				if !okW {
+					for _, so := range cfgx.Calls(f, func(ci ssa.CallInstruction) bool { return strings.HasSuffix(cfgx.CalleeName(ci), ".SetOwnerReferences") }) {
+						if flow.Root(underIface(cfgx.Receiver(so))) != written || !cfgx.MustPass(so.Block(), w.Block()) {
+							continue
+						}
+						for _, arg := range cfgx.CallArgs(so) {
+							if flow.Default.Any(arg, func(v ssa.Value) bool {
+								ci, ok := v.(ssa.CallInstruction)
+								return ok && strings.HasSuffix(cfgx.CalleeName(ci), ".GetOwnerReferences") && flow.Root(underIface(cfgx.Receiver(ci))) == holder
+							}) {
+								okW = true
+							}
+						}
+					}
+				}
+				c.R.Check(okW, site(w)+" writes the object holding the package reference", c.pos(w.Pos()), "the object written carries the package owner reference (itself, or through the owner references taken over from it)", "the package owner reference is added to an object this Update does not write: the established object loses the package as owner")
+			}
+		}
 	}
 
 	c.R.Rule("R16.6", "the revision reconciler passes DesiredState==Active as control", 1, "an inactive revision run with control=true takes over every object of the active one")
